@@ -13,7 +13,7 @@ from base import Ctx
 from common import SPEC, MachineryError, cps, text
 
 CLAUSES = {"accepted-but-invalid", "rejected-but-valid", "compact-differs", "compact-not-alnum-34",
-           "validate-not-true"}
+           "validate-not-true", "object-answers-differently-when-asked-again"}
 SIGMA_QUICK = [65, 66, 53, 55, 56, 97, 32, 1632]
 SIGMA_FULL = SIGMA_QUICK + [45]
 ENTRY = ("iban.new", "iban.validate", "iban.is_valid")
